@@ -93,6 +93,17 @@ func (e *env) absent(accessor string, err error) {
 	}
 }
 
+// probe runs one out-of-range call; a panic inside Juno is reported under the accessor.
+func (e *env) probe(accessor string, call func() error) {
+	var err error
+	if p := safely(func() { err = call() }); p != nil {
+		e.evals++
+		e.report("out-of-range:"+accessor+":panic", accessor, nil, "probe outside the stored range panicked: "+p.Error())
+		return
+	}
+	e.absent(accessor, err)
+}
+
 func nonNil[T any](s []T) []T {
 	if s == nil {
 		return []T{}
@@ -293,6 +304,31 @@ func (e *env) checkBlock(x *expBlock, isHead bool) {
 	cm, err := core.GetBlockCommitmentByBlockNum(st, n)
 	e.same("core.GetBlockCommitmentByBlockNum", "BlockCommitments", x.Commitments, cm, err)
 
+	// ---- the typed-bucket view of the same records (core/typed_buckets.go declares one codec per
+	// record family; it must read what the write accessors store)
+	tbh, err := core.BlockHeadersByNumberBucket.Get(st, n)
+	e.same("core.BlockHeadersByNumberBucket.Get", "Header", *x.Header, tbh, err)
+	tbn, err := core.BlockHeaderNumbersByHashBucket.Get(st, x.Header.Hash)
+	e.same("core.BlockHeaderNumbersByHashBucket.Get", "Number", n, tbn, err)
+	if x.SU != nil {
+		tsu, err := core.StateUpdatesByBlockNumberBucket.Get(st, n)
+		e.same("core.StateUpdatesByBlockNumberBucket.Get", "StateUpdate", *x.SU, tsu, err)
+	}
+	if x.Commitments != nil {
+		tcm, err := core.BlockCommitmentsBucket.Get(st, n)
+		e.same("core.BlockCommitmentsBucket.Get", "BlockCommitments", *x.Commitments, tcm, err)
+	}
+	for _, tx := range xTxs {
+		if l1, ok := tx.(*core.L1HandlerTransaction); ok {
+			th, err := core.L1HandlerTxnHashByMsgHashBucket.Get(st, l1.MessageHash())
+			e.same("core.L1HandlerTxnHashByMsgHashBucket.Get", "TransactionHash", felt.Hash(*l1.TransactionHash), th, err)
+		}
+	}
+	if isHead {
+		tht, err := core.ChainHeightBucket.Get(st, struct{}{})
+		e.same("core.ChainHeightBucket.Get", "Number", n, tht, err)
+	}
+
 	// ---- blockchain.Reader, block-level
 	rb, err := bc.BlockByNumber(n)
 	if err != nil || rb == nil {
@@ -353,26 +389,19 @@ func (e *env) checkBlock(x *expBlock, isHead bool) {
 	// ---- probes just outside and far outside the stored index range
 	probe := append([]uint64{uint64(len(xTxs)), uint64(len(xTxs)) + 1}, farIndexes...)
 	for _, ix := range probe {
-		_, err := core.GetTransactionByBlockAndIndex(st, n, ix)
-		e.absent("core.GetTransactionByBlockAndIndex", err)
-		_, err = bc.TransactionByBlockNumberAndIndex(n, ix)
-		e.absent("Reader.TransactionByBlockNumberAndIndex", err)
+		e.probe("core.GetTransactionByBlockAndIndex", func() error { _, err := core.GetTransactionByBlockAndIndex(st, n, ix); return err })
+		e.probe("Reader.TransactionByBlockNumberAndIndex", func() error { _, err := bc.TransactionByBlockNumberAndIndex(n, ix); return err })
 	}
 	probe = append([]uint64{uint64(len(xRcs)), uint64(len(xRcs)) + 1}, farIndexes...)
 	for _, ix := range probe {
-		_, err := core.GetReceiptByBlockAndIndex(st, n, ix)
-		e.absent("core.GetReceiptByBlockAndIndex", err)
-		_, err = core.GetTransactionExecutionStatusByBlockAndIndex(st, n, ix)
-		e.absent("core.GetTransactionExecutionStatusByBlockAndIndex", err)
-		_, err = bc.TransactionExecutionStatusByBlockNumberAndIndex(n, ix)
-		e.absent("Reader.TransactionExecutionStatusByBlockNumberAndIndex", err)
+		e.probe("core.GetReceiptByBlockAndIndex", func() error { _, err := core.GetReceiptByBlockAndIndex(st, n, ix); return err })
+		e.probe("core.GetTransactionExecutionStatusByBlockAndIndex", func() error { _, err := core.GetTransactionExecutionStatusByBlockAndIndex(st, n, ix); return err })
+		e.probe("Reader.TransactionExecutionStatusByBlockNumberAndIndex", func() error { _, err := bc.TransactionExecutionStatusByBlockNumberAndIndex(n, ix); return err })
 	}
 	probe = append([]uint64{uint64(pairs), uint64(max(len(xTxs), len(xRcs)))}, farIndexes...)
 	for _, ix := range probe {
-		_, _, err := core.GetTransactionAndReceiptByBlockAndIndex(st, n, ix)
-		e.absent("core.GetTransactionAndReceiptByBlockAndIndex", err)
-		_, _, _, err = bc.TransactionAndReceiptByBlockNumberAndIndex(n, ix)
-		e.absent("Reader.TransactionAndReceiptByBlockNumberAndIndex", err)
+		e.probe("core.GetTransactionAndReceiptByBlockAndIndex", func() error { _, _, err := core.GetTransactionAndReceiptByBlockAndIndex(st, n, ix); return err })
+		e.probe("Reader.TransactionAndReceiptByBlockNumberAndIndex", func() error { _, _, _, err := bc.TransactionAndReceiptByBlockNumberAndIndex(n, ix); return err })
 	}
 }
 
@@ -380,43 +409,25 @@ func (e *env) checkBlock(x *expBlock, isHead bool) {
 func (e *env) checkAbsentBlock(n uint64, hash *felt.Felt) {
 	st, bc := e.st, e.bc
 	e.desc = fmt.Sprintf("absent block %d", n)
-	_, err := core.GetBlockHeaderByNumber(st, n)
-	e.absent("core.GetBlockHeaderByNumber", err)
-	_, err = core.GetBlockHeaderHashByNumber(st, n)
-	e.absent("core.GetBlockHeaderHashByNumber", err)
-	_, err = core.GetGlobalStateRootByBlockNumber(st, n)
-	e.absent("core.GetGlobalStateRootByBlockNumber", err)
-	_, err = core.GetBlockTransactionCountByNumber(st, n)
-	e.absent("core.GetBlockTransactionCountByNumber", err)
-	_, err = core.GetBlockHeaderTimestampByNumber(st, n)
-	e.absent("core.GetBlockHeaderTimestampByNumber", err)
-	_, err = core.GetBlockHeaderEventsBloomByNumber(st, n)
-	e.absent("core.GetBlockHeaderEventsBloomByNumber", err)
-	_, _, err = core.GetBlockHeaderHashAndStateRootByNumber(st, n)
-	e.absent("core.GetBlockHeaderHashAndStateRootByNumber", err)
-	_, err = core.GetBlockByNumber(st, n)
-	e.absent("core.GetBlockByNumber", err)
-	_, err = core.GetTransactionsByBlockNumber(st, n)
-	e.absent("core.GetTransactionsByBlockNumber", err)
-	_, err = core.GetReceiptsByBlockNumber(st, n)
-	e.absent("core.GetReceiptsByBlockNumber", err)
-	_, _, err = core.GetTransactionsAndReceiptsByBlockNumber(st, n)
-	e.absent("core.GetTransactionsAndReceiptsByBlockNumber", err)
-	_, err = core.GetTransactionEventsByBlockNumber(st, n)
-	e.absent("core.GetTransactionEventsByBlockNumber", err)
-	_, err = core.GetTransactionHashesByBlockNumber(st, n)
-	e.absent("core.GetTransactionHashesByBlockNumber", err)
+	e.probe("core.GetBlockHeaderByNumber", func() error { _, err := core.GetBlockHeaderByNumber(st, n); return err })
+	e.probe("core.GetBlockHeaderHashByNumber", func() error { _, err := core.GetBlockHeaderHashByNumber(st, n); return err })
+	e.probe("core.GetGlobalStateRootByBlockNumber", func() error { _, err := core.GetGlobalStateRootByBlockNumber(st, n); return err })
+	e.probe("core.GetBlockTransactionCountByNumber", func() error { _, err := core.GetBlockTransactionCountByNumber(st, n); return err })
+	e.probe("core.GetBlockHeaderTimestampByNumber", func() error { _, err := core.GetBlockHeaderTimestampByNumber(st, n); return err })
+	e.probe("core.GetBlockHeaderEventsBloomByNumber", func() error { _, err := core.GetBlockHeaderEventsBloomByNumber(st, n); return err })
+	e.probe("core.GetBlockHeaderHashAndStateRootByNumber", func() error { _, _, err := core.GetBlockHeaderHashAndStateRootByNumber(st, n); return err })
+	e.probe("core.GetBlockByNumber", func() error { _, err := core.GetBlockByNumber(st, n); return err })
+	e.probe("core.GetTransactionsByBlockNumber", func() error { _, err := core.GetTransactionsByBlockNumber(st, n); return err })
+	e.probe("core.GetReceiptsByBlockNumber", func() error { _, err := core.GetReceiptsByBlockNumber(st, n); return err })
+	e.probe("core.GetTransactionsAndReceiptsByBlockNumber", func() error { _, _, err := core.GetTransactionsAndReceiptsByBlockNumber(st, n); return err })
+	e.probe("core.GetTransactionEventsByBlockNumber", func() error { _, err := core.GetTransactionEventsByBlockNumber(st, n); return err })
+	e.probe("core.GetTransactionHashesByBlockNumber", func() error { _, err := core.GetTransactionHashesByBlockNumber(st, n); return err })
 	for _, ix := range []uint64{0, 1, math.MaxUint64} {
-		_, err = core.GetTransactionByBlockAndIndex(st, n, ix)
-		e.absent("core.GetTransactionByBlockAndIndex", err)
-		_, err = core.GetReceiptByBlockAndIndex(st, n, ix)
-		e.absent("core.GetReceiptByBlockAndIndex", err)
-		_, _, err = core.GetTransactionAndReceiptByBlockAndIndex(st, n, ix)
-		e.absent("core.GetTransactionAndReceiptByBlockAndIndex", err)
-		_, err = core.GetTransactionExecutionStatusByBlockAndIndex(st, n, ix)
-		e.absent("core.GetTransactionExecutionStatusByBlockAndIndex", err)
-		_, _, _, err = bc.TransactionAndReceiptByBlockNumberAndIndex(n, ix)
-		e.absent("Reader.TransactionAndReceiptByBlockNumberAndIndex", err)
+		e.probe("core.GetTransactionByBlockAndIndex", func() error { _, err := core.GetTransactionByBlockAndIndex(st, n, ix); return err })
+		e.probe("core.GetReceiptByBlockAndIndex", func() error { _, err := core.GetReceiptByBlockAndIndex(st, n, ix); return err })
+		e.probe("core.GetTransactionAndReceiptByBlockAndIndex", func() error { _, _, err := core.GetTransactionAndReceiptByBlockAndIndex(st, n, ix); return err })
+		e.probe("core.GetTransactionExecutionStatusByBlockAndIndex", func() error { _, err := core.GetTransactionExecutionStatusByBlockAndIndex(st, n, ix); return err })
+		e.probe("Reader.TransactionAndReceiptByBlockNumberAndIndex", func() error { _, _, _, err := bc.TransactionAndReceiptByBlockNumberAndIndex(n, ix); return err })
 	}
 	var itErr error
 	for _, err := range core.GetTransactionsByBlockNumberIter(st, n) {
@@ -424,30 +435,18 @@ func (e *env) checkAbsentBlock(n uint64, hash *felt.Felt) {
 		break
 	}
 	e.absent("core.GetTransactionsByBlockNumberIter", itErr)
-	_, err = core.GetStateUpdateByBlockNum(st, n)
-	e.absent("core.GetStateUpdateByBlockNum", err)
-	_, err = core.GetBlockCommitmentByBlockNum(st, n)
-	e.absent("core.GetBlockCommitmentByBlockNum", err)
-	_, err = bc.BlockByNumber(n)
-	e.absent("Reader.BlockByNumber", err)
-	_, err = bc.StateUpdateByNumber(n)
-	e.absent("Reader.StateUpdateByNumber", err)
+	e.probe("core.GetStateUpdateByBlockNum", func() error { _, err := core.GetStateUpdateByBlockNum(st, n); return err })
+	e.probe("core.GetBlockCommitmentByBlockNum", func() error { _, err := core.GetBlockCommitmentByBlockNum(st, n); return err })
+	e.probe("Reader.BlockByNumber", func() error { _, err := bc.BlockByNumber(n); return err })
+	e.probe("Reader.StateUpdateByNumber", func() error { _, err := bc.StateUpdateByNumber(n); return err })
 	// unknown hash
-	_, err = core.GetBlockHeaderByHash(st, hash)
-	e.absent("core.GetBlockHeaderByHash", err)
-	_, err = core.GetStateUpdateByHash(st, hash)
-	e.absent("core.GetStateUpdateByHash", err)
-	_, err = core.GetTransactionByHash(st, (*felt.TransactionHash)(hash))
-	e.absent("core.GetTransactionByHash", err)
-	_, err = bc.BlockByHash(hash)
-	e.absent("Reader.BlockByHash", err)
-	_, err = bc.TransactionByHash(hash)
-	e.absent("Reader.TransactionByHash", err)
-	_, _, _, err = bc.Receipt(hash)
-	e.absent("Reader.Receipt", err)
-	_, _, err = bc.BlockNumberAndIndexByTxHash((*felt.TransactionHash)(hash))
-	e.absent("Reader.BlockNumberAndIndexByTxHash", err)
+	e.probe("core.GetBlockHeaderByHash", func() error { _, err := core.GetBlockHeaderByHash(st, hash); return err })
+	e.probe("core.GetStateUpdateByHash", func() error { _, err := core.GetStateUpdateByHash(st, hash); return err })
+	e.probe("core.GetTransactionByHash", func() error { _, err := core.GetTransactionByHash(st, (*felt.TransactionHash)(hash)); return err })
+	e.probe("Reader.BlockByHash", func() error { _, err := bc.BlockByHash(hash); return err })
+	e.probe("Reader.TransactionByHash", func() error { _, err := bc.TransactionByHash(hash); return err })
+	e.probe("Reader.Receipt", func() error { _, _, _, err := bc.Receipt(hash); return err })
+	e.probe("Reader.BlockNumberAndIndexByTxHash", func() error { _, _, err := bc.BlockNumberAndIndexByTxHash((*felt.TransactionHash)(hash)); return err })
 	eh := eth.HashFromBytes(hash.Marshal())
-	_, err = bc.L1HandlerTxnHash(&eh)
-	e.absent("Reader.L1HandlerTxnHash", err)
+	e.probe("Reader.L1HandlerTxnHash", func() error { _, err := bc.L1HandlerTxnHash(&eh); return err })
 }
